@@ -336,7 +336,8 @@ func destroyRingRotatedKeyByIndex(ring api.MutableKeyRing, index int) error {
 		rotatedActiveKeys = append(rotatedActiveKeys, i)
 	}
 
-	if index-1 > len(rotatedActiveKeys) {
+	// 1 is the index of the current key, rotated keys are listed from 2
+	if index < 2 || index-1 > len(rotatedActiveKeys) {
 		log.WithField("index", index).Debug("no key matched to index")
 		return ErrInvalidIndex
 	}
